@@ -129,6 +129,9 @@ def classify(c, prop):
     if r is not None and c.exit == 0 and not c.timed_out:
         return "ok", None
     # died without a result
+    if c.exit == -9 and not c.timed_out:
+        # SIGKILL never comes from the code under test (its own failures are SIGSEGV/SIGABRT/...): the kernel's out-of-memory killer or an outside actor ended the case
+        return "harness", Finding(prop, "harness:sigkill", "case was killed with SIGKILL by something outside the check (out of memory?): inconclusive", c, [], "harness")
     sig, desc = crash_signature(c)
     if c.exit == 127 or (c.exit not in (None, 0) and not c.timed_out and sig.startswith("exit:") and c.exit in (2, 126, 127)):
         return "harness", Finding(prop, "harness:" + sig, desc + "\n" + c.stderr_tail[-800:], c, [], "harness")
